@@ -39,6 +39,10 @@ func (i ItemCollection) IRIs() IRIs {
 
 	iris := make(IRIs, 0, len(i))
 	for _, it := range i {
+		// NOTE: nil members have no IRI
+		if IsNil(it) {
+			continue
+		}
 		iris = append(iris, it.GetLink())
 	}
 	return iris
@@ -307,6 +311,10 @@ func (i ItemCollection) Clean() {
 func (i ItemCollection) Recipients() ItemCollection {
 	all := make(ItemCollection, 0)
 	for _, it := range i {
+		// NOTE: nil members have no recipients
+		if IsNil(it) {
+			continue
+		}
 		_ = OnObject(it, func(ob *Object) error {
 			aud := ob.Audience
 			_ = all.Append(ItemCollectionDeduplication(&ob.To, &ob.CC, &ob.Bto, &ob.BCC, &aud)...)
